@@ -245,6 +245,31 @@ int main(int argc, char** argv) {
   for (int i = 0; i < N; ++i) {
     PolyInput in;
     if (!gen_input(g, in)) { stat("gen.rejected"); continue; }
+    // near-vanishing class: a round-ish contour (regular n-gon, random rotation) shrunk to 1.5 .. 20 % of its inradius - alone as an
+    // outer (negative delta) or as the hole of a square (positive delta).  What remains is small but far outside the tolerance
+    // band, so a wrong "this path will vanish anyway" shortcut or a lost residue shows up as missing / extra region.
+    bool nearvanish = g.chance(8);
+    double nv_inradius = 0; bool nv_hole = false;
+    if (nearvanish) {
+      in = PolyInput();
+      int n = (int)g.range(5, 32);
+      int64_t R = log_uniform(g, 300, 300000);
+      double rot = g.unit() * 6.283185307179586;
+      Path64 ngon;
+      for (int k = 0; k < n; ++k) ngon.emplace_back((int64_t)std::llround((double)R * std::cos(rot + 6.283185307179586 * k / n)), (int64_t)std::llround((double)R * std::sin(rot + 6.283185307179586 * k / n)));
+      if (!ccw(ngon)) std::reverse(ngon.begin(), ngon.end());
+      nv_inradius = (double)R * std::cos(3.141592653589793 / n) - 1.5;
+      nv_hole = g.coin();
+      if (nv_hole) {
+        in.paths.push_back(Path64{Point64(-3 * R, -3 * R), Point64(3 * R, -3 * R), Point64(3 * R, 3 * R), Point64(-3 * R, 3 * R)});
+        std::reverse(ngon.begin(), ngon.end());
+        in.holes = 1;
+      }
+      in.paths.push_back(ngon);
+      in.group.assign(in.paths.size(), 0);
+      in.S = nv_hole ? 3 * R : R; in.kind = "ngon"; in.outers = 1;
+      if (!closed_set_simple(in.paths)) { stat("gen.rejected"); continue; }
+    }
     Params pr;
     pr.jt = (int)(g.next() % 4);
     pr.ml = pick_ml(g);
@@ -261,6 +286,15 @@ int main(int argc, char** argv) {
     else { cls = "small"; static const int64_t sm[] = {0, 1, -1, 2, -2, 3, -3}; eighths = sm[g.next() % 7]; }
     if (g.chance(60) && cls != "small") eighths = eighths / 8 * 8;  // integral delta most of the time
     if (cls != "small" && eighths > -8 && eighths < 8) eighths = eighths < 0 ? -8 : 8;
+    if (nearvanish) {
+      cls = "nearvanish";
+      double f = 0.80 + 0.185 * g.unit();
+      eighths = (int64_t)(f * nv_inradius * 8.0);
+      if (g.chance(60)) eighths = eighths / 8 * 8;
+      if (eighths < 8) eighths = 8;
+      if (!nv_hole) eighths = -eighths;
+      pr.pointless_group = 0;
+    }
     pr.delta = Q{eighths, 8};
     pr.arc = pick_arc(g, std::fabs(pr.delta.d()));
     do_case(g, in, pr, cls);
